@@ -469,7 +469,12 @@ func TestC03(t *testing.T) {
 				case 0:
 					env[k] = nil
 				case 1:
-					env[k] = sp(map[string]string{"VERIF_SET": "set %value%", "VERIF_NUM": "-17", "VERIF_NAN": "12x"}[k])
+					// spellings of numbers that strconv.Atoi (the documented conversion of envInt) and laxer parsers judge differently
+					env[k] = sp(rapid.SampledFrom(map[string][]string{
+						"VERIF_SET": {"set %value%", "", " ", "0x10", "%VERIF_NUM%"},
+						"VERIF_NUM": {"-17", "+5", "010", "08", "007", "9223372036854775807", "-9223372036854775808", "0"},
+						"VERIF_NAN": {"12x", "0x10", "0b101", "0o17", "1_000", "1e3", "", " 7", "7 ", "9223372036854775808", "1.0", "٣", "--1"},
+					}[k]).Draw(rt, "envval-"+k))
 				default:
 					env[k] = sp("42")
 				}
